@@ -5,7 +5,7 @@ var netReal = []string{"replication and osmapi packages of the scratch copy of /
 func init() {
 	props["C19"] = propInfo{
 		Engine: "netsim", Race: false, Level: "exploration",
-		QuickRuns: 16 + 600, ThoroughRuns: 96 + 30000, QuickSecs: 900, ThoroughSecs: 2 * 3600, Chunk: 20,
+		QuickRuns: 16 + 700, ThoroughRuns: 96 + 30000, QuickSecs: 900, ThoroughSecs: 2 * 3600, Chunk: 20,
 		Rule:      "run indices 0..15 (quick; 0..95 thorough) enumerate the exhaustive small scope in interleaved slices: for each of minute/hour/day/changeset replication every directory of n<=8 (thorough: n<=11) consecutive sequences starting at the kind's first sequence (1; 2007990 for changesets), every set of missing state files among the n-1 below the newest, and every boundary query time (before all, just before the first, equal to each sequence's timestamp, between each neighbouring pair, after all); state-file rendering variant, base URL (default, custom, custom with path prefix) and call form (method / package-level) are a hash of the case index. Every later run draws 300 sampled scenarios from the choice tape: kind, range length log-uniform up to 10^7, step/jitter/pauses of the timestamp assignment, 0-4 gap plans (isolated; run including the first file; run right above it; run right below the newest; run around the target; run ending at / starting at a probe of the bisection towards the target; everything between a bisection interval's lower end and its probe; at most 60 missing files), query time (equal, between, one time unit before/after a state, before all, after all, equal to first/newest). One execution = one lookup call against the simulated planet. Non-trivial = the query is not after the newest state and the directory has at least three sequences or at least one missing file; distinct = distinct (directory+query hash, request-sequence hash)",
 		Probes:    []string{"exhaustive-small-scope-slices", "gap-hit-by-the-search", "run-of-gaps-walked", "first-file-missing", "answer-right-above-a-gap", "query-before-first", "query-equal-to-a-state", "query-between-states", "query-after-newest", "one-or-two-states", "range-of-a-million-or-more", "changeset-state-file-with-off-by-one-number"},
 		Real:      netReal,
